@@ -7,6 +7,7 @@ import (
 	"math/rand"
 	"net"
 	"net/http"
+	"os"
 	"sort"
 	"strings"
 	"sync"
@@ -50,6 +51,10 @@ func freePort() string {
 		// from that very port would connect to itself)
 		// (wide: a restarted teamserver's operator endpoint cannot be closed from outside, every restart of a shard keeps one port)
 		portBase = 1100 + (PortShard%16)*1950
+		// several checks may run on one machine at the same time, their shards sharing these ranges: each process starts somewhere else
+		// in its range (a port found free here is bound a moment later by the code under test - and a teamserver that cannot bind its
+		// operator endpoint exits)
+		portNext = (os.Getpid() * 131) % 1950
 	}
 	for tries := 0; tries < 1950; tries++ {
 		p := portBase + portNext%1950
